@@ -32,3 +32,13 @@ package node
 //@   ensures[value-or-error] (result0 != nil && result1 == nil) || (result0 == nil && result1 != nil)
 //@   ensures[accepts] result0 != nil <==> validType(sT) && validID(sID)
 //@   ensures[value] result0 != nil ==> deref(result0.t) == sT && deref(result0.id) == sID
+
+// Representation invariant of a node value; su(n) (declared in /verif/spec/uuid.spec) is its UUID.
+//@ spec macro wfNode(n *Node) Bool = n != nil && n.t != nil && n.id != nil
+
+//@ props C06
+//@ func (n *Node) UUID
+//@   trusted hash of the node's type and id; definedness and injectivity are the subject of C06
+//@   pure
+//@   requires wfNode(n)
+//@   ensures result == su(n) && len(result) == 16
